@@ -56,6 +56,7 @@ def parse_model(rep, suite, order):
     scopes = []
     for ti in order:
         scopes += [s.upper() for s in suite.tests[ti]["scopes"]]
+    scopes += ["RECV", "RECV"]            # the two mock targets of the test file are tests themselves
     cases = []
     for x, sc in zip(xs[0][1:], scopes):
         cases.append(("T%s" % x[1], sc, x[2] == "1", x[3], [T.Suite.log_text(int(m)) for m in x[4][1:]]))
@@ -166,6 +167,13 @@ def run(ctx):
     suites.append(fixed_suite(g, ["pass", "assert", "pass"], [True, False, True]))
     suites.append(fixed_suite(g, ["pass", "pass", "pass"], [True, True, True]))
     suites.append(g.kinds_suite())
+    # the dimension "tests that mutate per-test state through every testing.* helper, tests that observe it,
+    # in every order": one exhaustive suite per resource + random mixtures (fixed share of the budget)
+    n_plain = len(suites)
+    for x in range(len(T.RES)):
+        suites.append(g.resource_suite(x))
+    for _ in range(400 if thorough else 24):
+        suites.append(g.stateful_suite())
 
     reqs, mreqs, meta = [], [], []
     for si, s in enumerate(suites):
@@ -205,7 +213,7 @@ def run(ctx):
         npass = sum(1 for c in cases if not c[2] and c[3] == "pass")
         nfail = sum(1 for c in cases if not c[2] and c[3] != "pass")
         nskip = sum(1 for c in cases if c[2])
-        want_cases = sum(len(s.tests[ti]["scopes"]) for ti in order)
+        want_cases = sum(len(s.tests[ti]["scopes"]) for ti in order) + 2
         if npass + nfail + nskip != len(cases) or len(cases) != want_cases:
             ctx.violation("passed + failed + skipped = %d + %d + %d but %d (test, scope) pairs were to be run" % (npass, nfail, nskip, want_cases), replay)
         if (ex != 0) != (nfail > 0):
@@ -278,6 +286,10 @@ def run(ctx):
         "process_runs": n_cli, "corpus_known_cases": n_corpus,
         "orders_per_suite": {"<=5 tests": "every order (quick: 41 of 120 for 5 tests) + subsets", ">5 tests": "31 random orders / subsets"},
         "verdicts_in_first_order": verdicts,
+        "dimension_counts": {"suites_without_helpers": n_plain, "resource_suites (one per helper, all mutator pairs)": len(T.RES),
+                             "stateful_suites": len(suites) - n_plain - len(T.RES),
+                             "api_runs_on_helper_suites": sum(1 for (si, _, _) in meta if si >= n_plain),
+                             "helper_steps": {k: v for k, v in sorted(g.stats.items()) if k.startswith(("helper:", "observe", "resource-suite:"))}},
         "generator_stats": dict(sorted(g.stats.items())),
     })
     return ctx.finish(
